@@ -684,6 +684,31 @@ struct Runner {
                     break;
                 }
                 // fall through
+            case 8:
+                if (gen2 >= 2 && m.k == MK::Obj && !m.obj.empty() && !has_ptr(m)) {
+                    // an object gets one of its own members appended (v += v[key], copy or move) and the member is no object: the value
+                    // becomes an array holding (a copy of) that member - what it held before goes only after the operand has been taken
+                    const size_t i = (size >> 1) % m.obj.size();
+                    VC          *c = t.v->GetValue(SizeT(i));
+                    if (c == nullptr || m.obj[i].second.k == MK::Obj || m.obj[i].second.k == MK::Arr || m.obj[i].second.k == MK::Undef || !m.tombstone_free) {
+                        break;
+                    }
+                    const MV taken = m.obj[i].second;
+                    if ((size & 1) != 0) {
+                        *t.v += Memory::Move(*c);
+                        trace += "+=move(own member);";
+                    } else {
+                        *t.v += static_cast<const VC &>(*c);
+                        trace += "+=copy(own member);";
+                    }
+                    m   = MV{};
+                    m.k = MK::Arr;
+                    m.arr.push_back(taken);
+                    interesting = true;
+                    ctx.label("object+=own-member");
+                    break;
+                }
+                // fall through
             default: { // an own element / member moved to the end of its own array (a += move(a[i])): rotates it to the back, leaves Undefined behind
                 if (m.k != MK::Arr || m.arr.empty() || has_ptr(m)) {
                     break;
